@@ -15,7 +15,7 @@ def SPEC(tier):
     srcs = ['props/C13_slerp.cpp', 'props/C13_gtx.cpp']
     # the interpolation functions build their results through constructors whose argument / memory order depends on the two
     # quaternion-order macros: the same harness is also built under each of them
-    d['stages'] = [Stage('opt', srcs), Stage('opt-wxyz', srcs, flags=['-DGLM_FORCE_QUAT_DATA_WXYZ'], scale=0.25), Stage('opt-xyzw', srcs, flags=['-DGLM_FORCE_QUAT_DATA_XYZW'], scale=0.25)]
+    d['stages'] = [Stage('opt', srcs), Stage('opt-wxyz', srcs, flags=['-DGLM_FORCE_QUAT_DATA_WXYZ='], scale=0.25), Stage('opt-xyzw', srcs, flags=['-DGLM_FORCE_QUAT_DATA_XYZW'], scale=0.25)]
     return d
 
 
